@@ -6,6 +6,7 @@ C40 line protocol (same as harness/cc/c40_table.cc; every line is a complete sce
   seq <kind> <op> ...      sequential history, run through the transition system `step` with one thread
         r:<name>:<payload> -> s<ret> | E | W      n:<name> -> f<slot>:<key>:<payload> | -
         s:<int> -> o:<key>:<payload> | -           c -> <count>
+        L / U (kinds t, c): LockExclusively() scope opened / closed by the thread -> u
      kinds: t  test type, exact ObjectEqual          c  test type, case-insensitive ObjectEqual
             p  plugin API (empty name rejected before the table)
             v  resource-provider API (URI-scheme check on the prefix, slots 1-based)
@@ -77,6 +78,8 @@ def parseReg (tok : String) : Option (String × Nat) :=
 /-- one operation of a sequential history: wrapper-level answer or a table operation -/
 def seqOp (k : Kind) (tok : String) : Option (Sum String Op) :=
   if tok == "c" then some (.inr .count)
+  else if tok == "L" then (if k.copyFailPayload then some (.inr .lockExt) else none)
+  else if tok == "U" then (if k.copyFailPayload then some (.inr .unlockExt) else none)
   else match tok.splitOn ":" with
     | ["r", _, _] =>
       match parseReg tok with
